@@ -176,7 +176,7 @@ def web_of(docs, root):
 
 def run(ctx):
     import suds.cache
-    n_ifaces = ctx.pick(60, 500)
+    n_ifaces = ctx.pick(60, 2500)
     reqs, metas = [], []
     for i in range(n_ifaces):
         ident = "C12/%s/%d" % (ctx.seed, i) + ("/enc" if i % 6 == 5 else "")
